@@ -150,6 +150,18 @@ def make_call(cls, k):
         assert blob != tmpl
         exps = tuple([0, kk] + [0] * (n - 2))
         return [lambda: pickle.loads(blob), lambda: Dimension(exps), lambda: pickle.loads(blob)], lambda: len([d for d in Dimension._known.values() if getattr(d, "exponents", None) == exps])
+    if cls in ("Logarithm", "LogarithmPrefixed", "LogUnit"):
+        # the interned families of logarithmic units: a logarithm of a new base, a prefixed logarithm, a logarithmic unit over a new reference
+        from measured import Logarithm, LogarithmicUnit, Decibel, Bel
+        from measured.si import Watt, Milli
+        if cls == "Logarithm":
+            b_ = 100 + k
+            return (lambda: Logarithm(b_)), lambda: len([l for l in Logarithm._known.values() if getattr(l, "base", None) == b_])
+        if cls == "LogarithmPrefixed":
+            lg = Logarithm(1000 + k); pf = Prefix(10, -(k % 50) - 2)
+            return (lambda: pf * lg), lambda: len([l for l in Logarithm._known.values() if getattr(l, "base", None) == 1000 + k and getattr(l, "prefix", None) is pf])
+        ref = (3000 + k) * Watt
+        return (lambda: Decibel[ref]), lambda: len([u for u in LogarithmicUnit._known.values() if getattr(u, "logarithm", None) is Decibel and getattr(u, "reference", None) is not None and u.reference.magnitude == ref.magnitude and u.reference.unit is ref.unit])
     if cls == "PrefixMixed":
         from measured.iec import Kibi
         a = Prefix(10, 1000 + k)
